@@ -358,6 +358,21 @@ class HSym:
         g.nodes.append(n)
         return n
 
+    def fx_graph(self, spec):
+        """a torch.fx graph given as [(name, op, [input names], meta dict)]; returns (graph module, {name: node})"""
+        from .torchlib import FxGraphModule, FxNode
+        gm = FxGraphModule()
+        nodes = {}
+        for name, op, inputs, meta in spec:
+            target = name.split('@')[0]              # 'layer@2' = second invocation of sub-module 'layer'
+            n = FxNode(gm.graph, op, target, tuple(nodes[i] for i in inputs), name.replace('@', '_'))
+            n.meta = dict(meta)
+            gm.graph.nodes.append(n)
+            nodes[name] = n
+            if op == 'call_module' and target not in gm.mods:
+                gm.mods[target] = self.it.call(self.it.libs['torch'].nn.Identity, [], {})
+        return gm, nodes
+
     def fx_run(self, gm, x):
         return gm.run(self.it, x)
 
